@@ -181,8 +181,8 @@ def emit_tables():
     common.use_repo()
     out = {}
     lines = ['(* GENERATED by harness/gen_tables.py from the live library; do not edit *)',
-             'From Coq Require Import ZArith List String.', 'Import ListNotations.', 'Open Scope Z_scope.',
-             'Open Scope string_scope.', '']
+             'From Coq Require Import ZArith List String.', 'Import ListNotations.', 'Local Open Scope Z_scope.',
+             'Local Open Scope string_scope.', '']
     rows = gen_versions()
     out['tls_version_table'] = rows
     lines.append('(* cryptodatahub.tls.version.TlsVersion.__members__: (member name, canonical name, code) *)')
